@@ -2,16 +2,8 @@
     and a node is not executed twice between two input sessions.  Follows from the unconditional
     monotonicity facts of [Engine/MdlMono.v] (programs without unordered groups). *)
 From QV Require Import Common.Prelude Engine.Model Engine.Core Engine.CoreSpec Engine.CoreInvBase
-  Engine.Fw Engine.FwBase Engine.FwMono Engine.FwOnce Engine.MdlSpec Engine.MdlBase Engine.MdlMono Engine.MdlSound.
+  Engine.Fw Engine.FwBase Engine.FwMono Engine.FwOnce Engine.MdlSpec Engine.MdlBase Engine.MdlMono Engine.MdlCommit Engine.MdlSound.
 Open Scope Z_scope.
-
-Lemma sess_fold_log : forall sets cur rs batch cur' rs' batch',
-  fold_left fsess_step sets (cur, rs, batch) = (cur', rs', batch') -> s_log cur' = s_log cur.
-Proof.
-  induction sets as [|[v x] r IH]; intros cur rs batch cur' rs' batch' H; cbn [fold_left] in H.
-  - inversion H. reflexivity.
-  - rewrite fsess_step_eq in H. apply IH in H. rewrite H. apply set_input_log.
-Qed.
 
 Lemma step_f_session_execs : forall fuel pfuel p s sets s' x,
   step_f fuel pfuel p s (OSession sets false) = (s', x) -> r_execs x = [].
